@@ -3,18 +3,19 @@ ID = 'C13'
 # "real" build uses libstdc++. new_block = fixed operator-new block: KDTree nodes are 56 bytes; the vector returned by
 # within() needs up to 4 * 24 = 96 bytes.
 UNITS = {'kd': dict(wrap='wrap.cc', shim=True, new_block=128, cxxflags=['-DVERIF_DEQUE_CAP=5'],
-                    per_harness={'h_lookup.c': {'new_block': 64}, 'h_iter.c': {'new_block': 64}, 'h_erase_iter.c': {'new_block': 64}})}
+                    per_harness={'h_lookup.c': {'new_block': 64}, 'h_lookup3.c': {'new_block': 64}, 'h_iter.c': {'new_block': 64}, 'h_erase_iter.c': {'new_block': 64}})}
 
 BOUNDS = ('KDTree<Vector2<int64_t>,int>: P inserts of symbolic points from the 3x3 grid {0,1,2}^2 with symbolic values {0,1} (duplicate points, '
           'identical (point,value) entries and shared coordinates included), then E erase(point,value) calls with symbolic arguments '
           '(hit or miss), then (a) at/exists for a symbolic probe point, (b) exists(lo,hi)/within(lo,hi) for a symbolic half-open box with '
           'corners in {0..3}^2, (c) iteration begin()..end(); each followed by the destructor. Quick: (P,E) in {(0,0),(1,0),(1,1),(2,1)} '
           'for all three, (3,0) for lookup and iteration, (3,1) for lookup; thorough: (2,2),(3,0),(3,1),(3,2),(4,0) for all three and (4,1) for lookup and iteration. '
-          'Erase while iterating (erase_advance under a symbolic predicate over the entries, then size/iteration/exists): P <= 2 quick, P <= 3 thorough.')
+          'Erase while iterating (erase_advance under a symbolic predicate over the entries, then size/iteration/exists): P <= 2 quick, P <= 3 thorough. '
+          'Thorough also: KDTree<Vector3<int64_t>,int> on the 2x2x2 grid, (P,E) in {(3,1),(4,1)}, erase results/size/at/exists.')
 STUBS = ['std::deque -> engine/shim/deque (fixed-capacity FIFO of 5 slots, never reuses popped slots; overflow is an assertion failure, not reached for P <= 4)']
 OUTSIDE = ['more than 4 points; grids larger than 3x3 (ties along both axes, duplicates and identical entries are present in the 3x3 grid)',
            'P=4 with 2 erases (lookup 11 min, iteration 10.5 min, box queries out of memory at 12 GB); box queries at P=4 with 1 erase and erase_advance at P=4: solver out of memory at 12 GB',
-           'Vector3 / 3-D trees; value types other than int; emplace() (does not compile: std::forward(args) without template argument)',
+           '3-D trees beyond insert/erase/exact lookup on the 2x2x2 grid (P <= 4, E = 1); value types other than int; emplace() (does not compile: std::forward(args) without template argument)',
            'depth(), at() value choice among duplicates of the same point (any stored value is accepted)',
            "libstdc++'s std::deque itself"]
 ASSUMPTIONS = ['a box query on an empty tree is expected to return an empty result (property text: "agree with a linear scan")']
@@ -62,4 +63,10 @@ def queries(tier):
                        mem_gb=_MEM.get(name, 3), object_bits=12, cost=(10 ** p) * 6,
                        desc='KDTree: %d symbolic inserts, erase_advance under a symbolic predicate while iterating: every original entry is seen exactly once, afterwards size(), iteration and exists(pt) equal the brute-force survivors; destructor runs (possibly on an empty tree)' % p,
                        bounds='P=%d inserts, every subset of entries erased during iteration' % p))
+    if tier == 'thorough':
+        for p, e in ((3, 1), (4, 1)):
+            qs.append(dict(name='lookup3d_p%d_e%d' % (p, e), unit='kd', harness='h_lookup3.c', defs={'P': p, 'E': e}, unwind=p + 2, timeout=2400,
+                           mem_gb=6, object_bits=12, cost=(10 ** p) * 4,
+                           desc='KDTree<Vector3>: %d symbolic inserts on the 2x2x2 grid, %d symbolic erases: erase results, size(), exists(pt), at(pt) equal a brute-force multiset; destructor runs' % (p, e),
+                           bounds='3-D, P=%d inserts, E=%d erases, points in {0,1}^3, values {0,1}' % (p, e)))
     return qs
